@@ -129,8 +129,9 @@ def run(ctx):
         "write-time validation is modelled as test-compiling over the whole proposed entry set; the real store first fetches the related entries (readDiscoveryChainConfigEntriesTxn): agreement is checked on every store case, not proved",
         "detectCircularReferences is modelled as the recursion its explicit stack implements; a Go nil dereference / 'non-retained node' is the model's EInternal (proved unreachable)",
     ]
-    assumptions = ["entry sets are maps keyed by (kind, name)", "names contain no dots",
-                   "service-splitter entries have at least one split (enforced by Validate) for the 'paths end at a resolver' part"]
+    assumptions = ["entry sets are maps keyed by (kind, name) (NoDup keys in C15_deterministic)", "names contain no dots",
+                   "service-splitter entries have at least one split (enforced by Validate) in C15_paths_end_at_resolvers",
+                   "splitters chained at most two deep in C15_deterministic_order_partial (three deep: refuted, known finding)"]
     if not ok:
         cov.update({"evaluations": 0, "distinct_nontrivial": 0, "rule": "proof stage failed", "samples": []})
         return ctx.finish(cov, assumptions)
